@@ -10,7 +10,8 @@ LEVEL_TEXT = ('Held on the executions observed: around every outermost run/call/
               'that _current_patches/_current_stdout are empty, then runs a probe whose captured output must be exactly its own. '
               'Driven over the termination-mode matrix (incl. KeyboardInterrupt/GeneratorExit/custom BaseException and internal '
               'failures while building the feedback) x entry x tracer x threaded x history, and over random multi-execution '
-              'histories in one sandbox.')
+              'histories in one sandbox; programs whose clean-up outlasts the time limit while the next grading runs; objects of the '
+              'student\'s own classes as arguments of call(); a program that installs a trace function.')
 LEVEL_NOTE = ('Modules first imported during the call are counted, not judged. Time limits: every non-terminating program x entry x '
               'tracer here, plus programs whose clean-up after the interrupt goes on (until the harness lets it end) while the next '
               'grading runs; the interleavings of the two threads inside pedal are C14\'s. A measurement of coverage.py that is still '
